@@ -13,6 +13,7 @@ MCLockOrd == IF Shape = "fan" THEN <<"a">> ELSE <<"a1", "a2">>
 MCNeeds == [c \in MCCons |-> IF Shape = "fan" THEN {"a"} ELSE IF c = "x" THEN {"a1"} ELSE IF c = "y" THEN {"a2"} ELSE {"a1", "a2"}]
 MCPhase == [c \in MCCons |-> Phases[CHOOSE i \in 1..N : Names[i] = c]]
 MCWiper == Names[W]
+WindowOn == TRUE      \* cfg: RollbackWindow <- WindowOn (the C18 family: a Synchronize inside the ROLLBACK window of a producer)
 \* hide the event history when only checking properties
 View == <<pc, saw, dec, link, status, owner, execs, pend, wiped, losses, lock>>
 Emit == PrintT(ToJson([n |-> N, shape |-> Shape, wiper |-> Wiper, phases |-> Phases, needs |-> Needs, trace |-> trace, pc |-> pc,
